@@ -3054,7 +3054,8 @@ where
                         events.push(GenericEvent::NotifyPacketIdReleased(packet_id));
                     }
                     if self.publish_send_max.is_some() {
-                        self.publish_send_count -= 1;
+                        // The send quota is never incremented above its initial value
+                        self.publish_send_count = self.publish_send_count.saturating_sub(1);
                     }
                     events.extend(self.refresh_pingreq_recv());
                     events.push(GenericEvent::NotifyPacketReceived(packet.into()));
@@ -3128,7 +3129,8 @@ where
                             events.push(GenericEvent::NotifyPacketIdReleased(packet_id));
                         }
                         if self.publish_send_max.is_some() {
-                            self.publish_send_count -= 1;
+                            // The send quota is never incremented above its initial value
+                            self.publish_send_count = self.publish_send_count.saturating_sub(1);
                         }
                     }
                     events.extend(self.refresh_pingreq_recv());
@@ -3258,7 +3260,8 @@ where
                         events.push(GenericEvent::NotifyPacketIdReleased(packet_id));
                     }
                     if self.publish_send_max.is_some() {
-                        self.publish_send_count -= 1;
+                        // The send quota is never incremented above its initial value
+                        self.publish_send_count = self.publish_send_count.saturating_sub(1);
                     }
                     events.extend(self.refresh_pingreq_recv());
                     events.push(GenericEvent::NotifyPacketReceived(packet.into()));
